@@ -124,6 +124,25 @@ def norm_impl(o, line):
 norm_model = norm_impl
 
 
+def buffer_empty_at_eof(b):
+    """does the frame decoder (zmq_codec.rs) hold no undecoded byte after consuming b?  It takes the flags octet as soon
+    as it is there, the size octet(s) once all of them are there, the body once all of it is there."""
+    i, n = 0, len(b)
+    while True:
+        if i == n:
+            return True
+        flags = b[i]
+        i += 1
+        need = 8 if flags & 2 else 1
+        if n - i < need:
+            return n - i == 0
+        ln = int.from_bytes(b[i:i + need], "big")
+        i += need
+        if n - i < ln:
+            return n - i == 0
+        i += ln
+
+
 def judge(line, obs, orc):
     if S.bad_obs(obs):
         return "implementation " + str(obs)[:80]
@@ -199,6 +218,17 @@ def judge(line, obs, orc):
     else:
         # clean end of stream seen by the fair queue / never looked at: known class when the read side is gone but the rest is kept
         if t in ("PULL", "SUB", "DEALER", "ROUTER", "REP", "XPUB") and not write_fault and dropped == "r":
+            # the listed finding: an orderly close that arrives while FramedRead's buffer is empty - between messages, or right
+            # after the decoder has consumed a frame's flags / size octets - ends the stream without an error.  An end with
+            # undecoded bytes buffered must surface as an error and release the connection.
+            sp = cid.split(".")
+            if cid.startswith("c") and sp[3] == "eof":
+                off = int(sp[2])
+                body = b"".join(W.msg(m) for m in peer_msgs(t, b"a"))[:off]
+                if buffer_empty_at_eof(body):
+                    return "KNOWN:" + KNOWN_EOF
+                return ("connection closed %d bytes into the peer's traffic with undecoded bytes buffered: the stream was dropped without any error and "
+                        "the socket still holds the peer (halves dropped: %s)" % (off, dropped))
             return "KNOWN:" + KNOWN_EOF
     return None
 
